@@ -24,6 +24,7 @@ RULE = (
     "0 for unknown/bad arguments), client returns None. Non-trivial = notification that raises / is unknown / has bad arity, or sits at batch "
     "position > 0, or (pooled) a schedule with a preemption between enqueue and worker pick-up; distinct by hash of (text, configuration[, schedule])."
 )
+EXHAUSTIVE = ["all schedules with one preemption at a distinct source line (first occurrence; thorough: first two) for the staged workloads of sub-check 'pooled-sweep'"]
 ASSUMPTIONS = [
     "a notification is a structurally valid entry whose id is absent, null or ''",
     "payloads contain no '__jsonclass__' keys; R12",
@@ -202,7 +203,80 @@ def oracle_pooled(case):
                 sample={"body": text[:200], "pool": [case["max"], case["min"]], "schedule": sched.choices[:30]})
 
 
+def pooled_sweep_cases(tier):
+    for mx, mn in ((1, 0), (2, 0), (2, 1)):
+        for batch in (False, True):
+            yield {"max": mx, "min": mn, "batch": batch, "occurrences": 1 if tier == "quick" else 2}
+
+
+def oracle_pooled_sweep(case):
+    """Two notification bodies in a row on a pooled dispatcher; the second arrives while the
+    worker of the first is going back to the queue: every single preemption at a distinct line"""
+    from vlib import detsched as D
+    from vlib import poolprog
+    import jsonrpclib.SimpleJSONRPCServer as S
+    from jsonrpclib.config import Config
+
+    simthreading, simqueue, tp = poolprog.sim()
+    files = [S.__file__, tp.__file__]
+
+    def run_once(chooser):
+        sched = D.Scheduler(chooser, trace_files=files, max_steps=300000)
+        log = []
+        outs = []
+        disp = S.SimpleJSONRPCDispatcher(config=Config())
+        reached = []
+
+        def note(tok):
+            log.append(tok)
+            for ev in reached:
+                if not ev.flag:
+                    ev.set()
+        disp.register_function(note, "note")
+
+        def main():
+            pool = tp.ThreadPool(case["max"], case["min"], logname="pool")
+            pool.start()
+            disp.set_notification_pool(pool)
+            for i in range(3):
+                ev = D.Event()
+                reached.append(ev)
+                if case["batch"]:
+                    body = json.dumps([{"jsonrpc": "2.0", "method": "note", "params": ["n%da" % i]}, {"jsonrpc": "2.0", "method": "note", "params": ["n%db" % i]}])
+                else:
+                    body = json.dumps({"jsonrpc": "2.0", "method": "note", "params": ["n%d" % i]})
+                outs.append(disp._marshaled_dispatch(body))
+                ev.wait()
+            pool.join()
+            pool.stop()
+        error = None
+        try:
+            sched.run(main)
+        except (D.Deadlock, D.StepBudget) as ex:
+            error = ex
+        return sched, log, outs, error
+
+    infos = []
+    n = 0
+    want = sorted(["n%d%s" % (i, x) for i in range(3) for x in (("a", "b") if case["batch"] else ("",))])
+    for pre, (sched, log, outs, error), ch in D.single_preemption_sweep(run_once, max_points=3000, occurrences=case["occurrences"], threads=case["max"] + 1):
+        n += 1
+        if error is not None:
+            fail("C04/notification-executions", "a pooled notification is never executed: %s: %s (one preemption at %r)" % (type(error).__name__, error, pre))
+        if any(o != "" for o in outs):
+            fail("C04/notification-answered", "pooled notification answered %r" % (outs,))
+        if sorted(log) != want:
+            fail("C04/notification-executions", "pooled notifications executed as %r, expected %r (one preemption at %r)" % (sorted(log), want, pre))
+        infos.append(Info(nt=pre is not None, classes=["pooled-sweep"], key=(case["max"], case["min"], case["batch"], pre[:2] if pre else None),
+                          sample={"pool": [case["max"], case["min"]], "batch": case["batch"], "preempt-at": list(pre) if pre else None}))
+    infos.append(Info(classes=["pooled-sweep-complete"], key=("ps", case["max"], case["min"], case["batch"], case["occurrences"]), sample={"schedules": n}))
+    return Info(multi=infos)
+
+
 SUBS = [
+    Sub("pooled-sweep", oracle_pooled_sweep, enumerate=pooled_sweep_cases, shards={"quick": 6, "thorough": 6},
+        time_cap={"quick": 100, "thorough": 1500},
+        what="successive notification bodies on a pooled dispatcher: every single preemption at a distinct source line"),
     Sub("pooled", oracle_pooled, strategy=lambda tier: pooled_cases(),
         budget={"quick": 3000, "thorough": 60000}, shards={"quick": 12, "thorough": 16},
         time_cap={"quick": 100, "thorough": 1500},
